@@ -2,6 +2,9 @@
 //! All types are plain data (serde) so that a shrunk case is a replay file; the
 //! `build()` functions turn them into the repository's own values.
 
+pub mod nlri;
+pub mod wire;
+
 use proptest::prelude::*;
 use rustybgp_packet as packet;
 use rustybgp_packet::bgp;
@@ -56,6 +59,9 @@ pub struct AttrSpec {
     pub aigp: Option<u64>,
     /// (code, flags, data) of unknown optional attributes
     pub opaque: Vec<(u8, u8, Vec<u8>)>,
+    /// AGGREGATOR (asn, router address) in canonical 8-byte form
+    #[serde(default)]
+    pub aggregator: Option<(u32, u32)>,
 }
 
 pub fn as_path_bin(segs: &[Seg]) -> Vec<u8> {
@@ -140,6 +146,12 @@ impl AttrSpec {
         }
         if self.atomic_aggregate {
             v.push(A::new_with_bin(A::ATOMIC_AGGREGATE, Vec::new()).unwrap());
+        }
+        if let Some((asn, addr)) = self.aggregator {
+            let mut b = Vec::new();
+            b.extend_from_slice(&asn.to_be_bytes());
+            b.extend_from_slice(&addr.to_be_bytes());
+            v.push(A::new_with_bin(A::AGGREGATOR, b).unwrap());
         }
         if !self.communities.is_empty() {
             let mut b = Vec::new();
